@@ -101,6 +101,12 @@ def role_desc(vendor, cls, rich=False, cid_pos="middle", filler=0, seq=1):
             "suit-validate": [{"suit-condition-image-match": [B[0], B[1]]}]}
     env = {}
     if rich:
+        # a manifest that also lists OTHER installed manifests (its dependencies) as components - before its own
+        # component ID in the encoding: the class of the envelope is the one of suit-manifest-component-id
+        other = "nRF54H20_sample_app" if cls != "nRF54H20_sample_app" else "nRF54H20_sample_root"
+        body["suit-common"]["suit-components"] = [["INSTLD_MFST", {"RFC4122_UUID": {"namespace": "nordicsemi.com", "name": other}}],
+                                                  ["M", 2, 235577344, 352256],
+                                                  ["INSTLD_MFST", {"RFC4122_UUID": {"namespace": vendor, "name": cls + "_b"}}]]
         body["suit-payload-fetch"] = gen.digest("cose-alg-sha-256")
         body["suit-install"] = gen.digest("cose-alg-sha-384")
         body["suit-dependency-resolution"] = gen.digest("cose-alg-sha-512")
